@@ -229,7 +229,14 @@ static BaseField *make_field(const F8MetaCntx& ctx, unsigned short tag, const st
 				static_cast<Field<fp_type, 0> *>(bf)->set_precision(std::stoi(rest.substr(c + 1)));
 			return bf;
 		}
-	case 's': return mk(unhex(rest).c_str());
+	case 's':
+		{
+			const std::string v(unhex(rest));
+			BaseField *bf(mk(v.c_str()));
+			if (v.find('\0') != std::string::npos)   // content with NUL bytes (data fields): set by length, the text constructor stops at the NUL
+				static_cast<Field<f8String, 0> *>(bf)->set(v);
+			return bf;
+		}
 	case 't': case 'o': case 'd':
 		{
 			BaseField *bf(mk(kind == 't' ? "19700101-00:00:00.000" : kind == 'o' ? "00:00:00.000" : "19700101"));
